@@ -32,11 +32,24 @@ def _skip(o):
     return False
 
 
+class _Bulk:
+    """Stands for the elements of a huge container that is not expanded."""
+
+    def __init__(self, n):
+        self.n = n
+
+
 def reachable(root, limit=2000000):
     seen = {id(root): root}
     stack = [root]
     while stack:
         o = stack.pop()
+        if isinstance(o, (list, tuple, dict, set)) and len(o) > 200000:
+            # do not materialise the referents of a huge container (that
+            # alone could exhaust memory): count its slots instead
+            b = _Bulk(len(o))
+            seen[id(b)] = b
+            continue
         for r in gc.get_referents(o):
             if id(r) in seen or _skip(r):
                 continue
@@ -48,7 +61,8 @@ def reachable(root, limit=2000000):
 
 
 def size(root):
-    return len(reachable(root))
+    r = reachable(root)
+    return len(r) + sum(o.n for o in r.values() if isinstance(o, _Bulk))
 
 
 def histogram(root):
